@@ -3,7 +3,7 @@ from hypothesis import strategies as st
 import gen
 
 SCEN_FLAGS = {0: "gp_had_to_wait", 1: "concurrent_synchronize", 2: "nested_section", 3: "signal_inside_library", 4: "reg_during_gp",
-              5: "handler_section_ran", 6: "bp_arena_grew",
+              5: "handler_section_ran", 6: "bp_arena_grew", 8: "quiescent_thread_spun_until_grace_periods_returned",
               48: "futex_sleep", 49: "futex_wake_hit", 50: "delayed_store", 51: "store_forwarded", 52: "membarrier", 53: "fault_hit",
               54: "signal_run", 55: "cas_fail", 56: "mutex_block", 57: "stale_read"}
 E1_ASSUMPTIONS = [
